@@ -15,7 +15,7 @@ def newest_results():
     for f in files:
         r = json.load(open(f))
         res.setdefault((r['prop'], str(r['n'])), {}).update({'base': r})
-    for f in sorted(glob.glob('/tmp/mutres2_*.log') + glob.glob('/tmp/mutres3_*.log'), key=os.path.getmtime):
+    for f in sorted(glob.glob('/tmp/mutres[2-9]_*.log') + glob.glob('/tmp/mutres_C19.log'), key=os.path.getmtime):
         txt = open(f).read()
         for m in re.finditer(r'\{\n "prop".*?\n\}\n', txt, re.S):
             r = json.loads(m.group(0))
